@@ -215,8 +215,18 @@ class Exec(Engine):
             if f.id == 'old' and self.pure:
                 if self.old_state is None:
                     raise Undecided('old() without an entry state', node)
-                v = self.ev1(node.args[0], self.old_state)
-                return [(self.snapshot(v, self.old_state), st)]
+                os_ = self.old_state
+                prim = {}
+                for fr in self.__dict__.get('binder_frames', []):
+                    prim.update({k: x for k, x in fr.items() if isinstance(x, (VInt, VBool, VStr))})
+                if prim:
+                    # quantifier-bound index variables are visible inside old(): old(xs[k].f)
+                    os_ = os_.copy()
+                    fid_ = os_.new_frame(os_.cur)
+                    os_.cur = fid_
+                    os_.frames[fid_].update(prim)
+                v = self.ev1(node.args[0], os_)
+                return [(self.snapshot(v, os_), st)]
             if f.id in ('all', 'any') and len(node.args) == 1 and isinstance(node.args[0], (ast.GeneratorExp, ast.ListComp)):
                 return self.quantified(f.id, node.args[0], st, node)
             if f.id == 'sum' and len(node.args) == 1 and isinstance(node.args[0], (ast.GeneratorExp, ast.ListComp)) \
@@ -249,6 +259,14 @@ class Exec(Engine):
                 if isinstance(v, VRef) and isinstance(st.heap.get(v.loc), flagdict.HFlagDict):
                     return [(flagdict.flags_value(st.heap[v.loc]), st)]
                 raise Undecided('flags_of(%r)' % (v,), node)
+            if f.id == 'indices_of' and self.pure:
+                v = self.ev1(node.args[0], st)
+                if isinstance(v, VRef) and isinstance(st.heap.get(v.loc), HIdxList):
+                    return [(VSeq(st.heap[v.loc].idx, ('int',)), st)]
+                if type(v).__name__ == 'VEmptyList' or (isinstance(v, VRef) and isinstance(st.heap.get(v.loc), HPyList)
+                                                 and not st.heap[v.loc].items):
+                    return [(VSeq(smt.Empty('(Seq Int)'), ('int',)), st)]
+                raise Undecided('indices_of(%r: %r)' % (v, st.heap.get(getattr(v, 'loc', None))), node)
             if f.id == 'tb_entries' and self.pure:
                 from . import models_run
                 tb = self.ev1(node.args[0], st)
@@ -335,6 +353,7 @@ class Exec(Engine):
         return evs[k]['args'][field]
 
     def log_event(self, st, name, args, outcome):
+        name = name.split('#')[0]        # a contract variant logs under the function's own name
         st.events.append({'name': name, 'args': {k: self.snapshot(v, st) for k, v in args.items()}, 'outcome': outcome})
 
     def ev_Dict(self, node, st):
@@ -384,6 +403,25 @@ class Exec(Engine):
 
     def ev_ListComp(self, node, st):
         from . import reclists
+        if not self.pure and len(node.generators) == 1 and not node.generators[0].ifs:
+            # a concrete iterable: unroll
+            rs_it = self.ev(node.generators[0].iter, st)
+            if len(rs_it) == 1 and not isinstance(rs_it[0][0], Raised):
+                items = self.concrete_items(rs_it[0][0], rs_it[0][1])
+                if items is not None and len(items) <= 32:
+                    s_c = rs_it[0][1]
+                    vals = []
+                    for item in items:
+                        s_i = s_c.copy()
+                        fid = s_i.new_frame(s_i.cur)
+                        s_i.cur = fid
+                        self.assign_target(node.generators[0].target, item, s_i, node)
+                        self.pure += 1
+                        try:
+                            vals.append(self.ev1(node.elt, s_i))
+                        finally:
+                            self.pure -= 1
+                    return [(s_c.alloc(HPyList(vals)), s_c)]
         if not self.pure:
             # code: [elt for x in <record list>] with a side-effect free elt -> a fresh list holding the
             # axiomatised sequence; definedness of functional callees becomes an obligation for every index
@@ -472,10 +510,13 @@ class Exec(Engine):
         s.cur = fid
         bind(s)
         self.pat_stack.append((var, []))
+        binders = self.__dict__.setdefault('binder_frames', [])
+        binders.append(s.frames[fid])
         try:
             conds = [self.truthy(self.ev1(c, s), s) for c in comp.ifs]
             body = self.truthy(self.ev1(gen.elt, s), s)
         finally:
+            binders.pop()
             _, cands = self.pat_stack.pop()
         g = And(guard, *conds)
         seen = set()
@@ -819,6 +860,10 @@ class Exec(Engine):
                 # a sibling nested function of the nested function under verification
                 nq = '%s:%s.%s' % (vf.modname, cf.rsplit('.', 1)[0], vf.name)
                 nc = C.CONTRACTS.get(nq)
+            if nc is not None:
+                nq2 = self.cur_contract.opts.get('use', {}).get(nq)
+                if nq2 is not None:
+                    nq, nc = nq2, C.CONTRACTS[nq2]
             if nc is not None and nc is not self.cur_contract:
                 # a nested function under its own contract: closure variables are passed as extra named arguments
                 kw2 = dict(kwargs)
@@ -1155,7 +1200,14 @@ class Exec(Engine):
                 st.heap[v.loc] = HDict({k: self.fresh_like(x, '%s_%s' % (base, k), st) for k, x in o.entries.items()})
                 return
             if isinstance(o, HInst):
-                st.heap[v.loc] = HInst(o.cls, {k: self.fresh_like(x, '%s_%s' % (base, k), st) for k, x in o.fields.items()}, o.view)
+                fields = {k: self.fresh_like(x, '%s_%s' % (base, k), st) for k, x in o.fields.items()}
+                for f, fty in C.RECORDS.get(o.cls, {}).items():
+                    # an object under construction: its declared fields come into being (primitive ones; the others stay absent,
+                    # and reading an absent field is undecided, never a silent default)
+                    p = parse_type(fty)
+                    if f not in fields and p[0] in ('int', 'bool', 'str'):
+                        fields[f] = self.fresh_result(p, '%s_%s' % (base, f), st)
+                st.heap[v.loc] = HInst(o.cls, fields, o.view)
                 return
             if isinstance(o, HOpaque):
                 return
@@ -2248,7 +2300,7 @@ class Exec(Engine):
             fid = sts[0].new_frame(None)
             sts[0].cur = fid
             for name in names:
-                tyname = c.params.get(name)
+                tyname = c.params.get(name) or c.opts.get('closure', {}).get(name)
                 nxt = []
                 for s in sts:
                     if tyname is None:
